@@ -816,6 +816,20 @@ func (dsc *dataStoreCommand) del(keyNames []string, reclaim bool) (output respVa
 	return
 }
 
+// number of keys in the database; expired keys stay stored until they are next
+// touched, but they are not part of the database
+func (dsc *dataStoreCommand) dbSize() (count int) {
+	dsc.lock()
+	defer dsc.unlock()
+
+	for i := dsc.ds.data.createIterator(); i.next(); {
+		if !i.value.(*storeKey).isExpiredUnlocked() {
+			count++
+		}
+	}
+	return
+}
+
 func (dsc *dataStoreCommand) exists(keyNames []string) (output respValue) {
 	dsc.lock()
 	defer dsc.unlock()
